@@ -372,6 +372,25 @@ def check_C09(ctx):
         ctx.tally("planted_lines", min(nbad, 5))
         if nbad: ctx.nontriv(f["data"])
         cases.append(dict(files={"f.yaml": f["data"]}, cmd="lint", arg=b"f.yaml", silent=r.random() < 0.3, **NOCOLOR))
+    # physical lines longer than common read buffers (4096 bytes ... just under the 65536-byte limit) before a malformed entry: still ONE line each
+    longc = []
+    for k in range(ctx.scale(30, 400)):
+        n = r.choice([4095, 4096, 4097, 5000, 8192, 9000, 12000] + ([30000, 65000, 65535 - 5] if ctx.tier == "thorough" or k == 0 else []))
+        kind = r.choice(["comment", "note", "name", "heading-comment"])
+        if kind in ("note", "heading-comment"): n = min(n, 9000)      # the extracted model splits a note in quadratic time
+        longline = {"comment": b"#" + b"c" * n, "note": b"  # " + b"n" * n, "name": b"  " + b"x" * n + b": 1", "heading-comment": b"# k: " + b"v" * n}[kind]
+        pre = [b"rec:", b"  a: 1"] if kind != "heading-comment" else []
+        bad1 = r.choice([b"  oops", b"  b: 1.2.3", b"  c:1", b"\tbad: x1"])
+        lines = pre + [longline] + ([b"rec:"] if kind == "heading-comment" else []) + [b"  ok: 2", bad1, b"  fine: 3", b"  worse: ++1"]
+        data = b"\n".join(lines) + b"\n"
+        nline = lines.index(bad1) + 1
+        longc.append((dict(files={"f.yaml": data}, cmd="lint", arg=b"f.yaml", **NOCOLOR), nline, bad1))
+        ctx.nontriv(kind.encode() + bytes(str(n), "ascii") + bad1)
+    lres = cli_diff(ctx, [c for c, _, _ in longc], tag="C09:lint-long-line:")
+    for (c, nline, bad1), i in zip(longc, lres):
+        first = i["stdout"].split(b"\n")[0] if i["stdout"] else b""
+        if i["status"] == "ok" and not (b"line %d" % nline in first and bad1 in first):
+            ctx.violation("C09:line-number-after-long-line", "lint quotes %r for the malformed line %d %r that follows a line of more than 4096 bytes" % (first[:120], nline, bad1), dict(kind="cli", case=c, impl=i))
     ires = cli_diff(ctx, cases, tag="C09:lint:")
     # property-level relations on the implementation's own output
     for f, c, i in zip(fs, cases, ires):
